@@ -288,6 +288,9 @@ Definition do_parsing (raw : bytes) (td : option transport_dict) (ad : option ap
     let* st := dp_leading (mp_set_field_index st 2%nat) TAG_MSG_TYPE in
     let st := mp_set_field_index st 3%nat in
     let* st := dp_loop (S field_count) td ad st 0 in
+    (* mp.msg.fields = mp.msg.fields[:mp.fieldIndex+1]: the slots that were not used (one was allocated per SOH byte, data
+       fields may contain SOH) are dropped *)
+    let st := mp_set_msg st (msg_set_fields (mp_msg st) (firstn (S (mp_field_index st)) (m_fields (mp_msg st)))) in
     (* This will happen if there are no fields in the body *)
     let st := if mp_found_trailer st && negb (mp_found_body st)
               then mp_set_msg (mp_set_trailer_bytes st (mp_raw_bytes st)) (msg_set_body_bytes (mp_msg st) [])
